@@ -1,6 +1,7 @@
 package litefs
 
 import (
+	"bytes"
 	"context"
 	"encoding/binary"
 	"fmt"
@@ -96,6 +97,18 @@ func WriteStreamFrame(w io.Writer, f StreamFrame) error {
 	return err
 }
 
+// readBytes reads exactly n bytes from r. The buffer grows as data arrives
+// so a peer-supplied length cannot force a large allocation up front.
+func readBytes(r io.Reader, n uint32) ([]byte, error) {
+	var buf bytes.Buffer
+	if m, err := io.CopyN(&buf, r, int64(n)); err == io.EOF && m > 0 {
+		return nil, io.ErrUnexpectedEOF
+	} else if err != nil {
+		return nil, err
+	}
+	return buf.Bytes(), nil
+}
+
 type LTXStreamFrame struct {
 	Size int64  // payload size
 	Name string // database name
@@ -120,8 +133,8 @@ func (f *LTXStreamFrame) ReadFrom(r io.Reader) (int64, error) {
 		return 0, err
 	}
 
-	name := make([]byte, nameN)
-	if _, err := io.ReadFull(r, name); err == io.EOF {
+	name, err := readBytes(r, nameN)
+	if err == io.EOF {
 		return 0, io.ErrUnexpectedEOF
 	} else if err != nil {
 		return 0, err
@@ -173,8 +186,8 @@ func (f *DropDBStreamFrame) ReadFrom(r io.Reader) (int64, error) {
 		return 0, err
 	}
 
-	name := make([]byte, nameN)
-	if _, err := io.ReadFull(r, name); err == io.EOF {
+	name, err := readBytes(r, nameN)
+	if err == io.EOF {
 		return 0, io.ErrUnexpectedEOF
 	} else if err != nil {
 		return 0, err
@@ -208,8 +221,8 @@ func (f *HandoffStreamFrame) ReadFrom(r io.Reader) (int64, error) {
 		return 0, err
 	}
 
-	leaseID := make([]byte, n)
-	if _, err := io.ReadFull(r, leaseID); err == io.EOF {
+	leaseID, err := readBytes(r, n)
+	if err == io.EOF {
 		return 0, io.ErrUnexpectedEOF
 	} else if err != nil {
 		return 0, err
@@ -253,8 +266,8 @@ func (f *HWMStreamFrame) ReadFrom(r io.Reader) (int64, error) {
 		return 0, err
 	}
 
-	name := make([]byte, nameN)
-	if _, err := io.ReadFull(r, name); err == io.EOF {
+	name, err := readBytes(r, nameN)
+	if err == io.EOF {
 		return 0, io.ErrUnexpectedEOF
 	} else if err != nil {
 		return 0, err
